@@ -293,10 +293,13 @@ class SshHostKeyECDSABase(SshHostKeyBase):
         parser.parse_string('curve_identifier', 4, 'ascii', SshEllipticCurveIdentifier.from_code)
         parser.parse_bytes('curve_data', 4)
 
-        public_key = PublicKey.from_params(PublicKeyParamsEcdsa.from_octet_bit_string(
-            parser['curve_identifier'].value.named_group,
-            parser['curve_data'],
-        ))
+        try:
+            public_key = PublicKey.from_params(PublicKeyParamsEcdsa.from_octet_bit_string(
+                parser['curve_identifier'].value.named_group,
+                parser['curve_data'],
+            ))
+        except (ValueError, OverflowError) as e:
+            six.raise_from(InvalidValue(parser['curve_data'], cls, 'curve_data'), e)
 
         del parser['curve_identifier']
         del parser['curve_data']
